@@ -111,6 +111,13 @@ def explicit_cases(scheme, tier, seed):
                 continue
             if lens_valid(desc, cfg, prof):
                 yield ("boundary", explicit_case(scheme, cfg, prof, seed + len(prof)))
+    if scheme == "CJJ14.PiPtr":
+        # the array index width changes when the array grows past 256 slots (1-byte -> 2-byte pointers)
+        for bb in (2, 64):
+            cfg = small_config(scheme, 1)
+            cfg.update(param_B=1, param_b=bb, param_identifier_size=2)
+            for prof in ([254], [255], [256], [257], [130, 126], [128, 128], [200, 100]):
+                yield ("index_width_boundary", explicit_case(scheme, cfg, prof, seed))
     # the documented default configuration at its own boundaries
     dcfg = S.default_config(scheme)
     dprofs = [[1], [2], [64], [65], [63, 65, 1], [128], [129, 1]]
